@@ -663,6 +663,7 @@ pub fn preprocess_str<T: AsRef<Path>, U: AsRef<Path>, V: BuildHasher>(
                             &defines,
                             include_paths,
                             strip_comments,
+                            ignore_include,
                             resolve_depth + 1,
                             include_depth,
                         )? {
@@ -723,6 +724,7 @@ pub fn preprocess_str<T: AsRef<Path>, U: AsRef<Path>, V: BuildHasher>(
                     &defines,
                     include_paths,
                     strip_comments,
+                    ignore_include,
                     resolve_depth + 1,
                     include_depth,
                 )? {
@@ -924,6 +926,7 @@ fn resolve_text_macro_usage<T: AsRef<Path>, U: AsRef<Path>>(
     defines: &Defines,
     include_paths: &[U],
     strip_comments: bool,
+    ignore_include: bool,
     resolve_depth: usize,
     include_depth: usize,
 ) -> Result<Option<(String, Option<(PathBuf, Range)>, Defines)>, Error> {
@@ -1018,7 +1021,7 @@ fn resolve_text_macro_usage<T: AsRef<Path>, U: AsRef<Path>>(
                 path.as_ref(),
                 &defines,
                 include_paths,
-                false,
+                ignore_include,
                 strip_comments,
                 resolve_depth,
                 include_depth,
